@@ -33,6 +33,12 @@ CLAIMED = {
  "C17": ("translation_validation", "constant evaluation and cross-check of registry tables against type constants and boxed writers",
          "Cross-checks by constant evaluation, per corpus: meta registration literals ↔ factory registrations ↔ TLName()/TLTag() constants of the constructed Go type ↔ first word written by WriteTL1Boxed; function-ness ⇔ result transcoders exist; HaTL1/HaTL2 ⇔ readers are real, not stubs; names and non-zero tags pairwise distinct; every item has a factory and vice versa.",
          "programs = corpora; agreement with the schema text is not decided (schema seen only through the generator)", "DESIGN.md §3 C17"),
+ "C19": ("other", "typestate-style guard rules on the token iterator + owner tables for panics and token-text slicing",
+         "Decides structural necessary conditions of a total TL1 parser: every token consumption outside the iterator's methods is control-dependent on a positive non-eof front-token test on the same iterator (so eof, always appended last by the lexer, is never consumed), expectOrPanic follows checkToken of the same kind, explicit panics and token-text slicing occur only at listed sites, unbounded loops have exits, and error printing slices file content only through safeRange or under a range test. Lexer byte-level totality and the recombination invariant are value-level and not decided.",
+         "clause only; trusts go/types and the listed lexer token shapes", "DESIGN.md §3 C19"),
+ "C20": ("other", "typestate-style guard rules on the token iterator for the TL2 combinator parsers",
+         "Same rules as C19 on the TL2 parser functions, plus expect*(eof) only as the loop exit of the file parser. The OptionalState progress discipline is covered only as 'unbounded loops have an exit'; termination by token consumption is not decided.",
+         "clause only; trusts go/types", "DESIGN.md §3 C20"),
  "C23": ("other", "call-graph non-interference between the canonical and the ordinary printer families + dominance rules on tag assignment",
          "Decides that crc32() is ChecksumIEEE over canonicalForm(), that Construct.ID is computed only when no explicit tag was parsed and explicit tags are stored verbatim (base 16), and that nothing reachable from canonicalForm reads layout/comment fields or as-written arithmetic or crosses into the ordinary printer family. One genuine deviation is a known finding (bracket fields). The CRC value and token-level layout of the canonical text are not decided.",
          "trusts go/types and hash/crc32", "DESIGN.md §3 C23"),
